@@ -201,6 +201,16 @@ def run_model(ctx, cases):
     return ctx.run_model("drv_c13", cases)
 
 
+def classify(case, impl, model, spec):
+    """known finding C13-J4: 64-bit general function, zero-extension by exactly 4 bytes from a length that
+    is a multiple of 8 (fasthash64 itself can collide there: length_sensitive64_boundary_refuted)"""
+    t = case.split()
+    if len(t) != 6 or t[4] != "Z" or t[5] != "4" or t[0] not in ("d64", "dn"):
+        return None
+    n = 0 if t[2] == "-" else len(t[2]) // 2
+    return "C13-J4" if n % 8 == 0 else None
+
+
 def nontrivial(c):
     t = c.split()
     return len(t) == 6 and t[2] != "-"
